@@ -1502,6 +1502,12 @@ func (is *iterScanner) Next() bool {
 }
 
 func scanColumn(p []byte, col ColumnInfo, dest []interface{}) (int, error) {
+	if len(dest) == 0 {
+		if tuple, ok := col.TypeInfo.(TupleTypeInfo); ok && len(tuple.Elems) == 0 {
+			return 0, nil
+		}
+		return 0, fmt.Errorf("gocql: not enough columns to scan into: none left for column %q", col.Name)
+	}
 	if dest[0] == nil {
 		return 1, nil
 	}
